@@ -22,13 +22,27 @@
 
    Verdict: [ok, at]; at = 0 when accepted, else the 1-based index of the first
    offending token, Len(p) + 1 when the path is a proper prefix of accepted paths
-   but incomplete (something is missing after the last token).                  *)
-EXTENDS SchemaNodes
+   but incomplete (something is missing after the last token).
+
+   Lists with several keys.  "The token after a list name is validated as that
+   list's key value": key values come in the order of the key statement (RFC 6020
+   7.8.2), so that token is a value of the FIRST key named by the key statement -
+   wherever its leaf is declared in the list body.  A token the first key's type
+   rejects is therefore the first offending element, whatever follows it (no accepted
+   path starts like that under any reading), and a token it accepts makes a viable
+   prefix (accepted when incomplete paths are allowed).  The statement does not say
+   what follows the first key value of such a list (further key values? children?),
+   nor whether ending there is complete: those paths get the verdict Unj (at = -1)
+   and are not judged.                                                           *)
+EXTENDS SchemaNodes, TLC
 
 Ok     == [ok |-> TRUE, at |-> 0]
 Bad(i) == [ok |-> FALSE, at |-> i]
+Unj    == [ok |-> FALSE, at |-> -1]      \* the statement prescribes no verdict
 
-KeyType(l) == VisibleNamed(l.kids, l.key).typ
+NKeys(l)    == Len(l.keys)
+FirstKey(l) == l.keys[1]                 \* first in the order of the key statement
+KeyType(l)  == VisibleNamed(l.kids, FirstKey(l)).typ
 ValueNode(n) == n.kind \in {"leaf", "leaflist"}
 
 \* ---------------------------------------------------------------- meaning
@@ -43,6 +57,7 @@ RecNode(n, p, i, inc) ==
     [] n.kind = "list" ->
          IF i > Len(p) THEN (IF inc THEN Ok ELSE Bad(i))
          ELSE IF ~TypeAccepts(KeyType(n), p[i]) THEN Bad(i)
+         ELSE IF NKeys(n) > 1 THEN (IF i = Len(p) /\ inc THEN Ok ELSE Unj)
          ELSE IF i = Len(p) THEN Ok
          ELSE RecKids(n.kids, p, i + 1, inc)
     [] ValueNode(n) ->
@@ -54,6 +69,7 @@ Rec(schema, p, inc) == IF p = << >> THEN Ok ELSE RecKids(schema, p, 1, inc)
 
 Accepted(schema, p, inc)       == Rec(schema, p, inc).ok
 FirstOffending(schema, p, inc) == Rec(schema, p, inc).at
+Judged(schema, p, inc)         == Rec(schema, p, inc).at # -1
 
 \* the first offending element, characterised without the walk: a prefix is viable iff
 \* it is accepted with incomplete paths allowed; the first offending token is the one
@@ -72,7 +88,8 @@ LangNode(c, n, V) ==
   CASE c.kind = "container" -> LangKids(c.kids, n, V)
     [] c.kind = "list" ->
          {<< >>} \cup (IF n = 0 THEN {} ELSE
-            UNION {{<<v>> \o q : q \in LangKids(c.kids, n - 1, V)} : v \in {w \in V : TypeAccepts(KeyType(c), w)}})
+            UNION {{<<v>> \o q : q \in (IF NKeys(c) > 1 THEN {<< >>} ELSE LangKids(c.kids, n - 1, V))} :
+                   v \in {w \in V : TypeAccepts(KeyType(c), w)}})
     [] ValueNode(c) ->
          {<< >>} \cup (IF n = 0 THEN {} ELSE {<<v>> : v \in {w \in V : TypeAccepts(c.typ, w)}})
 
@@ -81,7 +98,8 @@ TokSeqs(T, n) == UNION {[1..k -> T] : k \in 0..n}
 \* ------------------------------------------------------------ walk machine
 \* phases: "in" (inside a container, the root counts as one), "key" (a list name was
 \* read), "entry" (inside a list entry), "val" (a leaf / leaf-list name was read),
-\* "done" (a value was read), "rej" (rejected at token `at`)
+\* "done" (a value was read), "rej" (rejected at token `at`); "keys" (the first key value of a list with
+\* several keys was read), "unk" (a token was read after that: nothing is prescribed any more)
 RootNode(schema) == [N("container", "", schema) EXCEPT !.presence = TRUE]
 InitSt(schema) == [ph |-> "in", node |-> RootNode(schema), at |-> 0]
 Enter(c) == [ph |-> (CASE c.kind = "container" -> "in" [] c.kind = "list" -> "key" [] OTHER -> "val"), node |-> c, at |-> 0]
@@ -90,7 +108,9 @@ StepTok(st, tok, i) ==
   CASE st.ph \in {"in", "entry"} ->
          IF HasVisible(st.node.kids, tok) THEN Enter(VisibleNamed(st.node.kids, tok)) ELSE Rej(st, i)
     [] st.ph = "key" ->
-         IF TypeAccepts(KeyType(st.node), tok) THEN [st EXCEPT !.ph = "entry"] ELSE Rej(st, i)
+         IF TypeAccepts(KeyType(st.node), tok) THEN [st EXCEPT !.ph = IF NKeys(st.node) > 1 THEN "keys" ELSE "entry"] ELSE Rej(st, i)
+    [] st.ph = "keys" -> [st EXCEPT !.ph = "unk"]
+    [] st.ph = "unk" -> st
     [] st.ph = "val" ->
          IF TypeAccepts(st.node.typ, tok) THEN [st EXCEPT !.ph = "done"] ELSE Rej(st, i)
     [] st.ph = "done" -> Rej(st, i)
@@ -100,6 +120,8 @@ EndVerdict(st, n, inc) ==
   CASE st.ph = "in"    -> IF st.node.presence \/ inc THEN Ok ELSE Bad(n + 1)
     [] st.ph = "key"   -> IF inc THEN Ok ELSE Bad(n + 1)
     [] st.ph = "entry" -> Ok
+    [] st.ph = "keys"  -> IF inc THEN Ok ELSE Unj
+    [] st.ph = "unk"   -> Unj
     [] st.ph = "val"   -> IF IsEmptyType(st.node.typ) \/ inc THEN Ok ELSE Bad(n + 1)
     [] st.ph = "done"  -> Ok
     [] st.ph = "rej"   -> Bad(st.at)
@@ -109,7 +131,32 @@ RunFrom(st, p, i) == IF i > Len(p) THEN st ELSE RunFrom(StepTok(st, p[i], i), p,
 Run(schema, p) == RunFrom(InitSt(schema), p, 1)
 \* what the walk was waiting for when it met token i (classifies a disagreement)
 PhaseBefore(schema, p, i) ==
-  IF i > Len(p) THEN "end:" \o Run(schema, p).ph ELSE Run(schema, SubSeq(p, 1, i - 1)).ph
+  IF i = -1 THEN "unjudged" ELSE IF i > Len(p) THEN "end:" \o Run(schema, p).ph ELSE Run(schema, SubSeq(p, 1, i - 1)).ph
+
+\* ------------------------------------------------- lists with several keys
+\* A list with the key statement "kb ka kc" (its first K names) whose key leaves have the types ts[1] .. ts[K] and are declared
+\* in the order ord (ord[j] = which key is declared j-th), with a non-key leaf before (style 1) or after
+\* (style 2) each of them.  The non-key leaves have a type whose value space differs from the first key's.
+KeyName(j)  == CASE j = 1 -> "kb" [] j = 2 -> "ka" [] OTHER -> "kc"      \* (key statement order is no order of the names)
+FillName(j) == CASE j = 1 -> "v1" [] j = 2 -> "v2" [] OTHER -> "v3"
+OtherType(t) == IF BaseType(t) = "int8" THEN "boolean" ELSE "int8"
+RECURSIVE KeyedBody(_, _, _, _)
+KeyedBody(ts, ord, style, j) ==
+  IF j > Len(ord) THEN << >>
+  ELSE LET kl == Leaf(KeyName(ord[j]), ts[ord[j]])
+           fl == Leaf(FillName(j), OtherType(ts[1]))
+       IN (IF style = 1 THEN <<fl, kl>> ELSE <<kl, fl>>) \o KeyedBody(ts, ord, style, j + 1)
+KeyedList(nm, ts, ord, style) == ListK(nm, SubSeq(<<KeyName(1), KeyName(2), KeyName(3)>>, 1, Len(ts)), KeyedBody(ts, ord, style, 1))
+\* K distinct types out of three value spaces, in the a-th of the six possible ways
+T3 == <<"int8", "string", "boolean">>
+TypeSeq(K, a) == LET o == Orders(3)[a] IN SubSeq(<<T3[o[1]], T3[o[2]], T3[o[3]]>>, 1, K)
+\* the a-th type assignment in every declaration order of the key leaves from the b-th on (lists l<a>o<b>),
+\* the style alternating
+RECURSIVE KeyedLists(_, _, _)
+KeyedLists(K, a, b) ==
+  IF b > Len(Orders(K)) THEN << >>
+  ELSE LET style == 1 + ((a + b) - 2 * ((a + b) \div 2))
+       IN <<KeyedList("l" \o ToString(a) \o "o" \o ToString(b), TypeSeq(K, a), Orders(K)[b], style)>> \o KeyedLists(K, a, b + 1)
 
 \* ------------------------------------------------------------------ shapes
 \* every node kind under every node kind, nested choices, empty-typed leaves,
@@ -175,12 +222,34 @@ PathShape(id) ==
                          Leaf("ab", "string"), Cont("abc", << Leaf("v", "int8"), Leaf("V", "string") >>),
                          List("a-2", "a_2", << Leaf("a_2", "int8"), Leaf("a.2", "string"), Leaf("a-10", "empty") >>) >>),
             Leaf("X", "string") >>
-NPathShapes == 14
+    [] id = 15 ->  \* single-key lists whose key leaf is not the first child (every key type, both styles for int8)
+         << KeyedList("a", <<"int8">>, <<1>>, 1), KeyedList("b", <<"string">>, <<1>>, 1),
+            ListK("c", <<"k">>, << Leaf("v", "int8"), Leaf("w", "int8"), Leaf("k", "boolean") >>) >>
+    [] id = 16 ->  \* two keys: 6 type pairs (three here, three in shape 17) x 2 declaration orders, non-key leaves interleaved
+         KeyedLists(2, 1, 1) \o KeyedLists(2, 2, 1) \o KeyedLists(2, 3, 1)
+    [] id = 17 ->
+         KeyedLists(2, 4, 1) \o KeyedLists(2, 5, 1) \o KeyedLists(2, 6, 1)
+    [] id \in 18..23 ->  \* three keys: one of the 6 type assignments per shape x 6 declaration orders, non-key leaves interleaved
+         KeyedLists(3, id - 17, 1)
+    [] id = 24 ->  \* lists with several keys in every host (container, presence container, entry of a single-key list,
+                   \* case, short-hand case), types through typedefs, keys of one type, key leaves named like other nodes
+         << Cont("c", << ListK("m", <<"b", "a">>, << Leaf("a", "tstring"), Leaf("x", "string"), Leaf("b", "tint8") >>) >>),
+            PCont("p", << ListK("m", <<"a", "b">>, << Leaf("b", "int8"), Leaf("a", "boolean") >>) >>),
+            List("l", "k", << Leaf("v", "int8"), Leaf("k", "string"),
+                              ListK("n", <<"k", "v">>, << Leaf("v", "string"), Leaf("k", "int8") >>) >>),
+            Choice("ch", << Case("c1", << ListK("q", <<"a", "q">>, << Leaf("q", "string"), Leaf("a", "tint8"), Leaf("x", "empty") >>) >>),
+                            ListK("sh", <<"a", "b", "k">>, << Leaf("k", "int8"), Leaf("b", "int8"), Leaf("a", "string") >>) >>),
+            ListK("same", <<"a", "b">>, << Leaf("b", "int8"), Leaf("a", "int8") >>) >>
+NPathShapes == 24
 
 \* tokens tried on a shape: every name of the schema (choice and case names included),
 \* a valid integer (also a valid string), a token no type but string accepts, an unknown name,
 \* and the empty token (the value of type empty, a valid string, no integer, no name)
-PathTokens(schema) == AllNames(schema) \cup {"5", "bad", "zz", ""}
+\* - in a schema that uses type boolean, also a token only boolean and string accept
+RECURSIVE UsesBool(_)
+UsesBool(kids) == \E i \in 1..Len(kids) : BaseType(kids[i].typ) = "boolean" \/ UsesBool(kids[i].kids)
+BoolToks(schema) == IF UsesBool(schema) THEN {"true"} ELSE {}
+PathTokens(schema) == AllNames(schema) \cup {"5", "bad", "zz", ""} \cup BoolToks(schema)
 \* values used inside viable paths (valid and invalid ones for every type)
 PathValues == {"5", "bad", ""}
 
@@ -196,7 +265,7 @@ SpecialToks == {"a+b c", "%2F/:@=&$?#;,"}
 \* name, a token with URL-significant characters, one node name): a longer viable
 \* continuation is a viable path with tails of its own.
 TailAlphabet(schema) == PathTokens(schema) \cup {"a+b c"}
-SmallAlphabet(schema) == {"5", "bad", "", "zz", "a+b c", CHOOSE nm \in AllNames(schema) : TRUE}
+SmallAlphabet(schema) == {"5", "bad", "", "zz", "a+b c", CHOOSE nm \in AllNames(schema) : TRUE} \cup BoolToks(schema)
 RECURSIVE MoreTails(_, _)
 MoreTails(A, k) == IF k = 0 THEN {<< >>} ELSE {<< >>} \cup {<<a>> \o t : a \in A, t \in MoreTails(A, k - 1)}
 Tails(schema, x, full) ==
@@ -204,5 +273,7 @@ Tails(schema, x, full) ==
   ELSE {<< >>} \cup {<<a>> \o t : a \in TailAlphabet(schema),
                                   t \in MoreTails(IF full THEN TailAlphabet(schema) ELSE SmallAlphabet(schema), x - 1)}
 PathsFor(schema, n, x, full) ==
-  {v \o t : v \in LangKids(schema, n, PathValues \cup SpecialToks), t \in Tails(schema, x, full)} \ {<< >>}
+  {v \o t : v \in LangKids(schema, n, PathValues \cup SpecialToks \cup BoolToks(schema)), t \in Tails(schema, x, full)} \ {<< >>}
+\* ... of which those are judged for which the statement prescribes a verdict in at least one mode
+JudgedPaths(schema, P) == {p \in P : Judged(schema, p, FALSE) \/ Judged(schema, p, TRUE)}
 =============================================================================
